@@ -3,6 +3,7 @@
 usage: seed_prompt.py C05 /tmp/wt/C05a   (the agent sees the property record only, nothing from /verif)"""
 import json, sys
 pid, wt = sys.argv[1], sys.argv[2]
+excl = sys.argv[3] if len(sys.argv) > 3 else ""
 rec = [json.loads(l) for l in open("/verif/properties.jsonl") if json.loads(l)["id"] == pid][0]
 rec = {k: rec[k] for k in ("id", "title", "statement", "quantifier", "why_tests_cant", "anchors")}
 print(f"""You are helping to evaluate a verification harness for the open-source project executablebooks/MyST-Parser (Python; MyST Markdown -> docutils/Sphinx doctrees). Your job: craft up to TWO independent, realistic source changes ("seeded defects") that each BREAK the semantic property below, while the project still imports and its existing test suite still passes exactly as before. You do NOT have and must not look for any verification harness; work only from the property text and the source code.
@@ -24,6 +25,8 @@ print(f"""You are helping to evaluate a verification harness for the open-source
 - It must need something SPECIFIC to manifest: a particular multi-step sequence or history, an unusual-but-legal input shape, a particular nesting/composition of two or three constructs, a fault at a particular point, a particular chunking/order. NOT something any ordinary document would expose at once, and not something the existing tests catch.
 - It must genuinely violate the property as stated (not merely change unspecified behaviour), with the project still importable and the full existing test suite unchanged.
 - The two changes should touch different mechanisms (different functions), so they are independent. If you can only find one good one, deliver one.
+
+{("- Other contributors have ALREADY proposed changes in these places; choose DIFFERENT mechanisms (other functions, other state): " + excl) if excl else ""}
 
 ## Deliverables (write them under `{wt}/_seed/1/` and `{wt}/_seed/2/`)
 For each change:
